@@ -1,5 +1,6 @@
 //! Type-erased access to every suite instantiation of the real `hpke` crate (suites.rs) and the
 //! recording / fault-injecting AEAD shim plus scripted RNG (shim.rs). Kept in its own crate so the
 //! expensive monomorphisation is rebuilt only when /repo changes.
+pub mod heapscan;
 pub mod shim;
 pub mod suites;
